@@ -40,10 +40,11 @@ def padDigits : Nat → Nat → Str
   | 0, _ => []
   | k+1, n => padDigits k (n / 10) ++ [digitChar (n % 10)]
 
-/-- number of decimal digits of `n` (1 for 0) -/
-def numDigits (n : Nat) : Nat := if n < 10 then 1 else 1 + numDigits (n / 10)
-termination_by n
-decreasing_by omega
+/-- number of decimal digits of `n` (1 for 0); the fuel `n` is more than enough -/
+def numDigitsF : Nat → Nat → Nat
+  | 0, _ => 1
+  | f+1, n => if n < 10 then 1 else 1 + numDigitsF f (n / 10)
+def numDigits (n : Nat) : Nat := numDigitsF n n
 
 /-- `str(n)` for a non-negative Python int -/
 def natStr (n : Nat) : Str := padDigits (numDigits n) n
